@@ -138,9 +138,38 @@ func runCase(seed uint64, idx int) (string, map[string]interface{}, string, bool
 			progs[t] = append(progs[t], newCall(true))
 		}
 	}
+	// targeted windows: a scripted schedule prefix (thread, run until it parks at this point), then random steps as usual.
+	// The windows are those between Maintain's / Push's read of the closed flag and its CleanUp, with Close's CAS in between and
+	// something evictable put there by a push still in flight (a completing EOE, or one event too many).
+	type directive struct {
+		t     int
+		until string
+	}
+	var script []directive
+	scripted := r.Chance(1, 6)
+	if scripted {
+		nth, timeout, mid = 3, time.Hour, 3
+		maxSize = sx.Pick(r, []int{5, 1})
+		first := call{kind: "push", mid: 0, seq: base, typ: 1300}
+		inflight := call{kind: "push", mid: 1, seq: base, typ: 1320} // completes the first event
+		if maxSize == 1 {
+			inflight = call{kind: "push", mid: 1, seq: base + 1, typ: 1300} // one event too many
+		}
+		switch r.Intn(3) {
+		case 0: // Maintain read the flag, Close does its CAS, the in-flight push has put its message, Maintain cleans up
+			progs = [][]call{{first, {kind: "close"}}, {inflight}, {{kind: "maintain"}}}
+			script = []directive{{0, "A"}, {2, "maintain:cleanup"}, {0, "close:clear"}, {1, "push:cleanup"}, {2, "A"}}
+		case 1: // the same with the in-flight push cleaning up itself after Close's CAS
+			progs = [][]call{{first}, {inflight}, {{kind: "close"}}}
+			script = []directive{{0, "A"}, {1, "push:cleanup"}, {2, "close:clear"}, {1, "A"}}
+		default: // Maintain between Close's CAS and Clear
+			progs = [][]call{{first}, {{kind: "close"}}, {inflight, {kind: "maintain"}}}
+			script = []directive{{0, "A"}, {2, "push:cleanup"}, {1, "close:clear"}, {2, "A"}, {2, "A"}}
+		}
+	}
 	spec := map[int][]call{}
 	var specCoq []string
-	if mid > 0 && r.Chance(1, 2) {
+	if !scripted && mid > 0 && r.Chance(1, 2) {
 		for k := 0; k < 1+r.Intn(2); k++ {
 			on := r.Intn(mid)
 			if _, dup := spec[on]; dup {
@@ -186,19 +215,29 @@ func runCase(seed uint64, idx int) (string, map[string]interface{}, string, bool
 	}
 	var sched []string
 	deadlock := false
-	step := func(th *thread) {
+	step := func(th *thread) string {
 		if th.done || deadlock {
-			return
+			return "done"
 		}
 		w.cur = th
 		th.grant <- struct{}{}
 		select {
-		case <-th.parked:
+		case p := <-th.parked:
+			return p
 		case <-th.finished:
 			th.done = true
 		case <-time.After(2 * time.Second):
 			deadlock = true
 			w.log = append(w.log, fmt.Sprintf("oDeadlock %d", th.id))
+		}
+		return "done"
+	}
+	for _, d := range script {
+		for k := 0; k < 40 && !threads[d.t].done && !deadlock; k++ {
+			sched = append(sched, fmt.Sprint(d.t))
+			if step(threads[d.t]) == d.until {
+				break
+			}
 		}
 	}
 	steps := 8 + r.Intn(40)
@@ -248,6 +287,9 @@ func runCase(seed uint64, idx int) (string, map[string]interface{}, string, bool
 	desc := map[string]interface{}{"case": idx, "threads": nth, "maxInFlight": maxSize, "timeout": timeout.String(),
 		"reentrant_callbacks": len(spec), "schedule": strings.Join(sched, ""), "log": strings.Join(w.text, " "), "deadlock": deadlock}
 	cls := fmt.Sprintf("threads=%d/reentrant=%v", nth, len(spec) > 0)
+	if scripted {
+		cls = "scripted-window/" + cls
+	}
 	return coq, desc, cls, len(w.log) > 4
 }
 
